@@ -222,7 +222,7 @@ ADVICE_XPATH = ''.join("/*[local-name()='%s']" % v for v in ['Response', 'Assert
 
 def advice_strategy():
     from hypothesis import strategies as st
-    return st.fixed_dictionaries({'inner': st.sampled_from(['valid', 'wrong-key', 'content-edit', 'sigval', 'unsigned', 'other-issuer-key']), 'opts': st.integers(0, 7),
+    return st.fixed_dictionaries({'inner': st.sampled_from(['valid', 'wrong-key', 'content-edit', 'sigval', 'unsigned', 'other-issuer-key', 'schema-invalid-signed', 'schema-invalid-unsigned']), 'opts': st.integers(0, 7),
                                   'main_signed': st.booleans(), 'resp_signed': st.booleans(), 'enc_key': st.sampled_from([2, 3]), 'alg': st.sampled_from(build.HASHES)})
 
 
@@ -236,10 +236,13 @@ def run_advice(case):
     inner = dict(a, id='id-advice-1', attributes=[{'name': 'urn:oid:2.5.4.12', 'name_format': 'urn:oasis:names:tc:SAML:2.0:attrname-format:uri', 'friendly_name': 'title', 'values': ['superuser']}])
     inner.pop('authn', None)
     f = case['inner']
-    key = {'valid': 1, 'wrong-key': 5, 'content-edit': 1, 'sigval': 1, 'unsigned': None, 'other-issuer-key': 6}[f]
+    key = {'valid': 1, 'wrong-key': 5, 'content-edit': 1, 'sigval': 1, 'unsigned': None, 'other-issuer-key': 6, 'schema-invalid-signed': 1, 'schema-invalid-unsigned': None}[f]
     if key is not None:
         inner['signature'] = build.sig_template(inner['id'], case['alg'], ('x509', world.cert_body(key)))
     ix = build.assertion_xml(inner)
+    if f.startswith('schema-invalid'):
+        # a decrypted advice assertion is validated like a plain one: no Version attribute, a non-numeric ProxyRestriction Count (the signature, if any, is made over this content)
+        ix = ix.replace(' Version="2.0"', '', 1) if case['opts'] % 2 else ix.replace('<saml:AudienceRestriction>', '<saml:ProxyRestriction Count="many"/><saml:AudienceRestriction>', 1)
     if key is not None:
         ix = build.sign(ix, build.ASSERTION_NODE, inner['id'], key)
     if f == 'content-edit':
@@ -262,9 +265,9 @@ def run_advice(case):
     if resp_signed:
         doc = build.sign(doc, build.RESPONSE_NODE, rr['id'], 1)
     v = spside.deliver(sp, doc)
-    bad = f in ('wrong-key', 'content-edit', 'sigval', 'other-issuer-key')
+    bad = f in ('wrong-key', 'content-edit', 'sigval', 'other-issuer-key', 'schema-invalid-signed', 'schema-invalid-unsigned')
     if bad and v[0] == 'accept':
-        raise Violation('bad-signature-on-decrypted-advice-accepted', 'advice assertion fault %s (SP options %r, main signed %r, response signed %r): accepted with %r'
+        raise Violation(('invalid' if f.startswith('schema') else 'bad-signature-on') + '-decrypted-advice-accepted', 'advice assertion fault %s (SP options %r, main signed %r, response signed %r): accepted with %r'
                         % (f, (wrs, was, wors), main_signed, resp_signed, spside.identity_of(v[1])))
     if f == 'valid' and v[0] != 'accept':
         raise Violation('valid-encrypted-advice-rejected', 'valid encrypted advice assertion rejected: %s %s' % (v[1], v[2]))
